@@ -318,6 +318,102 @@ def twin_cases():
     return out
 
 
+EVAL_BATTERY = ["(-8)^0.5", "x^0.5", "(0 - 8)^(1 / 3)", "1 / 0", "x / 0 + 1", "2^3 * (4 + 1)", "(4 + 1) * 2^3", "10^20 + 1", "x^3 - y", "2^-3", "sgn(x) + 7",
+                "5! / 3!", "0.1 + 0.2", "x * 0.5 - 3", "7 = 7", "2 = 3", "x = 2 + y", "(x + y)^2 / (x - y)", "-x^2", "4x^2 + 2x + 1"]
+
+
+def _eval_battery():
+    from mathy_core.parser import ExpressionParser
+
+    out = []
+    # sub-expressions first (no root has been evaluated yet in this round)
+    probe = ExpressionParser().parse("x + 2^3 * (4 + 1) - 7!")
+    for n in probe.to_list("preorder")[1:]:
+        try:
+            v = n.evaluate()
+            r = ("value", repr(v))
+        except Exception as e:  # noqa
+            r = ("raise", type(e).__name__)
+        out.append(("subtree " + str(n), "None", r))
+    for t in EVAL_BATTERY:
+        for env in (None, {"x": -2, "y": 5}, {"x": 2 ** 62, "y": 3}, {"x": 0.5, "y": 0.25}):
+            try:
+                v = ExpressionParser().parse(t).evaluate(env)
+                r = ("value", type(v).__name__ if not isinstance(v, float) else "float", "nan" if v != v else repr(v))
+            except Exception as e:  # noqa
+                r = ("raise", type(e).__name__)
+            out.append((t, repr(env), r))
+    return out
+
+
+def check_disturbed_evaluation():
+    from ..explore import disturb
+
+    return [("evaluation-depends-on-earlier-unrelated-calls", f"after {name}: {before} became {after}")
+            for name, i, before, after in disturb.run(_eval_battery)]
+
+
+def float_equation_cases():
+    """equations between float-valued sides built from + - * / only (IEEE-exact in both evaluators): they hold
+    when the two doubles are equal and must raise when they differ, even in the last place"""
+    sides = ["0.1 + 0.2", "0.3", "x / 3", "x * (1 / 3)", "0.1 * 3", "0.5 + 0.25", "0.75", "x * 0.1", "x / 10", "1 / 3 + 1 / 3", "2 / 3",
+             "x + 0.1 - 0.1", "x", "0.5x", "x / 2"]
+    envs = [{"x": 5}, {"x": 0.3}, {"x": 1e16}, {"x": 7.1}]
+    for a, b in itertools.product(sides, sides):
+        for env in envs:
+            yield a, b, env
+
+
+def check_float_equation(a, b, env):
+    from mathy_core.parser import ExpressionParser
+
+    def ref(text):
+        t = ExpressionParser().parse(text)
+        from .. import sig as SG
+        return _ref_float(SG.sig(t), env)
+
+    try:
+        wa, wb = ref(a), ref(b)
+    except Exception:  # noqa
+        return []
+    if not (isinstance(wa, float) or isinstance(wb, float)):
+        return []
+    try:
+        got = ExpressionParser().parse(f"{a} = {b}").evaluate(dict(env))
+        err = None
+    except Exception as e:  # noqa
+        got, err = None, e
+    if wa == wb:
+        if err is not None:
+            return [("equation-raises-though-sides-agree", f"{a} = {b} at {env}: both sides are {wa!r}, raised {err!r}")]
+    else:
+        if err is None:
+            return [("equation-with-different-sides-returns", f"{a} = {b} at {env}: sides are {wa!r} and {wb!r}, returned {got!r}")]
+    return []
+
+
+def _ref_float(s, env):
+    """Python-float evaluation of a signature over + - * / and negation (same IEEE operations, same order)"""
+    tag, payload, ls, rs = s
+    if tag == "c":
+        from .. import sig as SG
+        return SG.const_value(payload)
+    if tag == "v":
+        return env[payload]
+    if tag == "neg":
+        return -_ref_float(ls if ls is not None else rs, env)
+    a, b = _ref_float(ls, env), _ref_float(rs, env)
+    if tag == "+":
+        return a + b
+    if tag == "-":
+        return a - b
+    if tag == "*":
+        return a * b
+    if tag == "/":
+        return a / b
+    raise ValueError(tag)
+
+
 INPLACE_TEXTS = None
 
 
@@ -415,6 +511,21 @@ def _work(task):
             for kind, detail in check_eval_history(texts[i]):
                 acc.violation(kind, {"mode": "history", "text": texts[i], "chunk": list(task)}, detail)
         return acc
+    if task[0] == "disturb":
+        acc = Acc()
+        acc.count("evaluations", len(EVAL_BATTERY) * 4 * 8)
+        acc.count("disturbance_rounds", 7)
+        for kind, detail in check_disturbed_evaluation():
+            acc.violation(kind, {"mode": "disturb", "chunk": ["disturb"]}, detail)
+        return acc
+    if task[0] == "floateq":
+        acc = Acc()
+        for a, b, env in float_equation_cases():
+            acc.count("evaluations")
+            acc.count("float_equations")
+            for kind, detail in check_float_equation(a, b, env):
+                acc.violation(kind + "|float-sides", {"mode": "floateq", "a": a, "b": b, "env": env, "chunk": ["floateq"]}, detail)
+        return acc
     if task[0] == "twins":
         acc = Acc()
         for t, env in twin_cases():
@@ -464,7 +575,7 @@ def run(tier, seed):
     k = seed % len(parts)
     parts = parts[k:] + parts[:k]
     nt = len(inplace_texts())
-    parts = list(parts) + [("history", lo, hi) for lo, hi in par.chunks(nt, 16)] + [("twins",)]
+    parts = list(parts) + [("history", lo, hi) for lo, hi in par.chunks(nt, 16)] + [("twins",), ("disturb",), ("floateq",)]
     # every chunk runs in its own freshly forked process: module-level state of the code under test (caches)
     # then depends only on the chunk, and a violation is replayed by re-running its chunk the same way
     acc = merge_all(par.pmap(_work, parts, fresh=True))
@@ -481,6 +592,7 @@ def run(tier, seed):
         "unbound_variable_checks": acc.n["unbound_checks"], "equation_checks": acc.n["equations"],
         "evaluate_rewrite_in_place_evaluate_texts": acc.n["eval_history_texts"],
         "value_equal_twin_evaluations_in_one_process": acc.n["twin_evaluations"],
+        "float_equations": acc.n["float_equations"], "disturbance_rounds_of_the_evaluation_battery": acc.n["disturbance_rounds"],
         "magnitudes": [repr(m) for m in MAGS], "exponents": EXPS, "factorials": FACTS,
     }
     return acc, cov, ["Python int arithmetic is the exact reference; Python float arithmetic is the IEEE reference (same operation order)"]
@@ -494,7 +606,7 @@ def replay(case):
     """the recorded case on its own; if that does not reproduce (module-level state of the code under test,
     e.g. a cache filled by earlier evaluations), its whole chunk is re-run in a freshly forked process"""
     want = case.get("_core")
-    got = _replay_direct(case)
+    got = par.run_fresh(_replay_direct, case)  # own process: must not pollute the next level
     if got and (want is None or any(c == want for c, _ in got)):
         return got
     if "chunk" in case:
@@ -512,6 +624,10 @@ def replay(case):
 def _replay_direct(case):
     if case.get("mode") == "history":
         return check_eval_history(case["text"])
+    if case.get("mode") == "disturb":
+        return check_disturbed_evaluation()
+    if case.get("mode") == "floateq":
+        return [(k + "|float-sides", d) for k, d in check_float_equation(case["a"], case["b"], case["env"])]
     t, env = _tup(case["tree"]), case["env"]
     if case["mode"] == "unbound":
         return check_unbound(t)
